@@ -584,8 +584,18 @@ def run_end(ctx, c):
             continue
         # the deserialize-then-end tail may live in a private helper shared by the entry points
         b = inline.expand(c, b, depth=2, pred=lambda cb: cb.d.get("vis") != "pub", lower=True)
-        des = [(bb, t) for bb, t in b.calls() if t["call"]["def"] == sw.DE + "Deserialize::deserialize"
-               and ty_adt(t["call"]["substs"][1]) in entry_adts]
+        des_all = [(bb, t) for bb, t in b.calls() if t["call"]["def"] == sw.DE + "Deserialize::deserialize" and len(t["call"].get("substs") or []) > 1]
+        des = [(bb, t) for bb, t in des_all if ty_adt(t["call"]["substs"][1]) in entry_adts]
+        if des_all and entry_adts and any(ty_adt(strip_refs(a_)) in entry_adts for a_ in [b.local_ty(k_) for k_ in range(len(b.d["locals"]))] if a_):
+            # a convenience function that builds a Conjure deserializer must also deserialize *through* it (not through the
+            # serde_json / serde_smile deserializer it wraps, which knows nothing of the Conjure behaviours), and through the
+            # flavour its name promises
+            for bb_, t_ in des_all:
+                a_ = ty_adt(t_["call"]["substs"][1]) or tystr(t_["call"]["substs"][1])
+                flavour_ok = not (b.name.startswith("server_") and "Client" in a_.split("::")[-1]) and not (b.name.startswith("client_") and "Server" in a_.split("::")[-1])
+                ctx.check(a_ in entry_adts and flavour_ok, "R1.6", b.loc(t_["ln"]), f"{b.id}|deserializes-through-wrapper",
+                          f"{b.id}: the value is deserialized with {a_.split('::')[-1] if '::' in a_ else a_}, not with the Conjure {'server' if b.name.startswith('server_') else 'client'} deserializer this function constructs: the Conjure behaviours (strictness, key and double handling) are bypassed",
+                          instance=f"{b.name}: T::deserialize(&mut {a_.split('::')[-1]})")
         if not des:
             continue
         n += 1
